@@ -20,10 +20,7 @@ def units(tier):
         us.append(dict(h="k_splitparen", n=n, cost=0))
     for n in ((1, 2, 3, 4, 5) if q else (1, 2, 3, 4, 5, 6)):
         us.append(dict(h="k_replace_map", n=n, cost=0))
-    if q:
-        us += PG.program_units(tier, "tok_prog", ics=(True,), rotate=True)
-    else:
-        us += PG.program_units(tier, "tok_prog", ics=(True,))
+    us += PG.program_units(tier, "tok_prog", ics=(True,), rotate=True)
     return us
 
 
@@ -35,7 +32,7 @@ def meta(tier):
                 assumptions=["canonicalisations applied by the oracle: keyword case, blanks, '::' dropped, compound keywords split, empty () after SUBROUTINE/CALL dropped",
                              "catalogue templates are written in the explicit-keyword forms (UNIT=, KIND=, LEN=)",
                              "names differ from keywords/intrinsics; labels have no leading zero"],
-                budget_s=420 if q else 3300, unit_budget_s=90 if q else 900)
+                budget_s=420 if q else 2400, unit_budget_s=90 if q else 900)
 
 
 def tok_prog(ctx):
